@@ -40,10 +40,31 @@ def seeded():
         rows.append('| %s | %s | %s | %s |' % (sid, m['property'], notes, outcome))
     return '\n'.join(rows) + '\n'
 
+def theorems():
+    import importlib, sys
+    sys.path.insert(0, V + '/harness')
+    out = []
+    for i in range(1, 21):
+        pid = 'C%02d' % i
+        pv = V + '/coq/props/P_%s.v' % pid
+        txt = re.sub(r'\(\*.*?\*\)', '', open(pv).read(), flags=re.S)
+        ths = re.findall(r'^\s*(?:Theorem|Corollary)\s+(\w+)', txt, flags=re.M)
+        out.append('* **%s** (%d): %s' % (pid, len(ths), ', '.join('`%s`' % t for t in ths)))
+        try:
+            mod = importlib.import_module('props.' + pid.lower())
+            out.append('  * trusted / not verified: %s' % re.sub(r'\s+', ' ', mod.LEVEL_NOTE)[:900])
+            ass = getattr(mod, 'ASSUMPTIONS', [])
+            if ass:
+                out.append('  * assumptions: %s' % '; '.join(re.sub(r'\s+', ' ', a) for a in ass)[:1200])
+        except Exception as e:
+            out.append('  * (module not importable: %r)' % (e,))
+    return '\n'.join(out) + '\n'
+
+
 def main():
     p = V + '/DESIGN.md'
     s = open(p).read()
-    for name, fn in (('status', status), ('findings', findings), ('seeded', seeded)):
+    for name, fn in (('status', status), ('findings', findings), ('seeded', seeded), ('theorems', theorems)):
         s = re.sub(r'(<!-- BEGIN %s -->\n).*?(<!-- END %s -->)' % (name, name), lambda m: m.group(1) + fn() + m.group(2), s, flags=re.S)
     open(p, 'w').write(s)
 
